@@ -512,19 +512,13 @@ Proof.
   - simpl in G. apply andb_true_iff in G. destruct G as [G1 G2].
     destruct (insert_deriv_wf t s k d s' H G1 G2 E) as [W _]. exact W.
   - (* as_readonly *)
-    destruct (c_ro (s_core s)) eqn:Hr; [inversion E; subst; auto|].
     inversion E; subst; clear E. unfold wf in *. simpl. split_andb; auto.
     + apply freeze_wf; auto.
     + destruct (s_derivs s); simpl in *; auto.
     + rewrite map_map. simpl. assumption.
     + rewrite forallb_map'. apply forallb_forall. intros kd Hkd. simpl.
       match goal with H : forallb _ (s_derivs s) = true |- _ => rewrite forallb_forall in H; specialize (H kd Hkd) end.
-      unfold wf_deriv in *. simpl. split_andb; auto.
-      * destruct (c_ro (d_core (snd kd))); auto. apply freeze_wf; auto.
-      * destruct (c_ro (d_core (snd kd))); auto.
-      * destruct (c_ro (d_core (snd kd))); auto.
-      * destruct (c_ro (d_core (snd kd))); auto.
-      * destruct (c_ro (d_core (snd kd))) eqn:R; auto.
+      unfold wf_deriv in *. simpl. split_andb; auto; try (apply freeze_wf; auto); try apply implb_true_r.
   - (* copy recursive *)
     match type of E with insert_all _ _ ?ll = _ =>
       destruct (insert_all_wf t ll (bare (thaw_copy (s_core s))) s' (wf_bare t _ (thaw_wf t _ Hc)) ) as [W _]; auto end.
